@@ -4,11 +4,13 @@
 From Coq Require Import List NArith Bool.
 From SV Require Import lib.Bytes model.Graph model.GraphInv gen.GenCrash model.Crash proofs.CrashProofs
   proofs.CrashReach proofs.CrashStarted model.CrashStartup proofs.CrashStartupGen proofs.CrashStartupProofs.
+From SV Require model.Engine proofs.EngineProofs model.CrashEngine proofs.CrashEngineProofs.
 Import ListNotations.
 Open Scope N_scope.
 
-(* ---- the full statement, kept visible (not proved) ------------------------------------------
-   [build] is the engine (model/Engine.v does not exist yet): a complete, uninterrupted build
+(* ---- the full statement, kept visible (not proved in this generality; section 6 proves it for
+   the static-DAG fragment of the engine of C01) ------------------------------------------------
+   [build] is the engine: a complete, uninterrupted build
    of the stored workflow [s] against the disk [d], given the project [pr] (sources, programs).
    [crash pr k s d] is the state of the world after a kill at crash point k of that build
    (committed prefix, partial writes of running commands, memory lost).  C05 says: opening the
@@ -273,6 +275,71 @@ Example C05_startup_example :
                     | _ => false end) (seq 0 8) = true /\
   pending_steps envw_state = [].
 Proof. exact startup_example_ok. Qed.
+
+(* ---- 6. C05_full on the static-DAG fragment of the engine of C01 -------------------------------
+   model/Engine.v: a build is the fold of [step_build] over a topologically ordered project; [Pre]
+   is its pre-build invariant (recorded traces valid, K = no stale success, closure).
+   model/CrashEngine.v: [crash_state proj y c]: [c] is what a restart finds after a kill during
+   [build proj y] and reset_interrupted_steps -- the first k dispatch decisions, and possibly one
+   more step that was being executed: PENDING, no recorded trace (C05_started_then_crash), ANY
+   content at its outputs.  [restart] = startup rescan against the world as it is, then a build. *)
+Section EngineCrash.
+  Import Engine EngineProofs CrashEngine CrashEngineProofs.
+  Variable run : N -> list (option N) -> list (option N) -> N -> N.
+
+  (* a crash state satisfies the pre-build invariant and has the sources and the environment of
+     the interrupted build: a partial write only touches outputs of a PENDING step *)
+  Theorem C05_crash_state_satisfies_Pre :
+    forall (proj : project) (y c : Engine.sys),
+      wf proj = true -> Pre run proj y -> crash_state run proj y c ->
+      Pre run proj c /\ same_world proj y c.
+  Proof. exact (crash_state_Pre_wf run). Qed.
+
+  (* hence the completed restart is finished, satisfies K, and has the step states and the output
+     contents of the build that was never interrupted -- which are those of a build from scratch *)
+  Theorem C05_full_static_dag_partial :
+    forall (proj : project) (y c : Engine.sys),
+      wf proj = true -> Pre run proj y -> crash_state run proj y c ->
+      Pre run proj (restart run proj c) /\ K proj (restart run proj c) /\
+      Finished run proj (restart run proj c) /\
+      same_result proj (restart run proj c) (build run proj y) /\
+      same_result proj (restart run proj c) (scratch run proj (fs y) (ev y)).
+  Proof. exact (crash_restart_equals_uninterrupted run). Qed.
+
+  (* "no output of an interrupted step is ever treated as up to date": the restarted build never
+     hash-checks-and-skips the step that was being executed *)
+  Theorem C05_interrupted_step_not_skipped :
+    forall (proj : project) (s : step) (y : Engine.sys) (junk : N -> option N),
+      wf proj = true -> In s proj ->
+      let c := torn s y junk in
+      ~ In (sid s, false) (build_log run proj proj (resync proj c (fs c, ev c))).
+  Proof. exact (interrupted_step_not_skipped run). Qed.
+End EngineCrash.
+
+(* the hypotheses are satisfiable: the diamond of C01 after a change of source 2 (steps 102 and
+   103 rerun), killed at each of the 6 points between decisions and inside both reruns with junk
+   at the outputs: the restart gives the result of the uninterrupted build *)
+Example C05_engine_example :
+  Engine.wf CrashEngineProofs.ce_diamond = true /\
+  forallb (fun k => Engine.same_result_b CrashEngineProofs.ce_diamond
+                      (CrashEngine.restart CrashEngineProofs.ce_run CrashEngineProofs.ce_diamond
+                         (CrashEngine.crash_between_b CrashEngineProofs.ce_run CrashEngineProofs.ce_diamond
+                            CrashEngineProofs.ce_start k))
+                      (Engine.build CrashEngineProofs.ce_run CrashEngineProofs.ce_diamond CrashEngineProofs.ce_start))
+          (seq 0 6) = true /\
+  forallb (fun k => match CrashEngine.crash_inside_b CrashEngineProofs.ce_run CrashEngineProofs.ce_diamond
+                            CrashEngineProofs.ce_start k CrashEngineProofs.ce_junk with
+                    | Some c => Engine.same_result_b CrashEngineProofs.ce_diamond
+                                  (CrashEngine.restart CrashEngineProofs.ce_run CrashEngineProofs.ce_diamond c)
+                                  (Engine.build CrashEngineProofs.ce_run CrashEngineProofs.ce_diamond
+                                     CrashEngineProofs.ce_start)
+                    | None => true end) (seq 0 6) = true /\
+  map (fun k => match CrashEngine.crash_inside_b CrashEngineProofs.ce_run CrashEngineProofs.ce_diamond
+                        CrashEngineProofs.ce_start k CrashEngineProofs.ce_junk with
+                | Some _ => true | None => false end) (seq 0 4) = [false; false; true; true] /\
+  Engine.build_log CrashEngineProofs.ce_run CrashEngineProofs.ce_diamond CrashEngineProofs.ce_diamond
+                   CrashEngineProofs.ce_start = [(102, true); (103, true)].
+Proof. exact CrashEngineProofs.ce_example. Qed.
 
 (* ---- non-vacuity ---------------------------------------------------------------------------- *)
 (* every prefix of the two witness histories satisfies the hypotheses used above, opens without
